@@ -61,6 +61,7 @@ fn main() {
         "c11" => lg::c11(&a),
         "c12" => lg::c12(&a),
         "show" => show::main(&a),
+        "userword" => show::userword(&a),
         "alone" => show::alone(&a),
         "c14" => lg::c14(&a),
         "c08" => c08::main(&a),
